@@ -53,15 +53,49 @@ def c_init(v):
     return '0'
 
 
+def _val(v):
+    """scalar CBMC json value -> C literal (None if not scalar)"""
+    if v.get('name') in ('integer', 'boolean', 'pointer', 'float'):
+        return c_init(v)
+    return None
+
+
 def vin_from_trace(full_trace, entry):
-    """last full assignment to the harness local `in`"""
-    best = None
+    """C statements that rebuild the harness input struct `in` from the trace.
+
+    CBMC 6.11 reports the nondet struct field-wise (in.a[0l], in.la, in.cf.x ...), in function hbody;
+    a whole-struct step, when present and not hidden, is used first and the field-wise steps override it."""
+    stmts = {}
+    order = []
+    whole = None
     for st in full_trace:
-        if st.get('stepType') == 'assignment' and st.get('lhs') == 'in' \
-                and st.get('sourceLocation', {}).get('function') == entry \
-                and st.get('value', {}).get('name') == 'struct':
-            best = st['value']
-    return c_init(best) if best is not None else None
+        if st.get('stepType') != 'assignment':
+            continue
+        lhs = st.get('lhs', '')
+        fn = st.get('sourceLocation', {}).get('function', '')
+        if fn not in (entry, 'hbody'):
+            continue
+        v = st.get('value', {})
+        if lhs == 'in' and v.get('name') == 'struct' and not st.get('hidden'):
+            whole = c_init(v)
+            continue
+        if lhs.startswith('in.') or lhs.startswith('in['):
+            lit = _val(v)
+            if lit is None:
+                continue
+            c_lhs = re.sub(r'\[(\d+)[a-zA-Z]*\]', r'[\1]', lhs)
+            if '$' in c_lhs:
+                continue
+            if c_lhs not in stmts:
+                order.append(c_lhs)
+            stmts[c_lhs] = lit
+    if not stmts and whole is None:
+        return None
+    out = []
+    if whole is not None:
+        out.append('in = (__typeof__(in)) %s;' % whole)
+    out += ['%s = %s;' % (k, stmts[k]) for k in order]
+    return ' '.join(out)
 
 
 def malloc_pattern(full_trace):
@@ -82,15 +116,20 @@ def native_run(unit, tier, vin_init, mpat=None, keepdir=None):
         exe = os.path.join(work, 'replay')
         init_h = os.path.join(work, 'vin_init.h')
         with open(init_h, 'w') as f:
-            f.write('#define VIN_INIT %s\n' % vin_init)
+            f.write('#define VIN_ASSIGN %s\n' % vin_init)
             f.write('#define VMALLOC_PATTERN { %s }\n' % ', '.join(str(x) for x in (mpat or [])) if mpat else '')
-        cmd = ['gcc', '-g', '-O0', '-fsanitize=address,undefined', '-fno-sanitize-recover=undefined',
-               '-D_GNU_SOURCE', '-DHARNESS=hbody', '-DVENTRY=' + entry, '-std=gnu99', '-w',
-               '-I' + vrun.REPO, '-I' + vrun.REPO + '/htp', '-I' + vrun.VERIF + '/contracts', '-I' + vrun.VERIF + '/spec',
-               '-include', init_h, '-include', os.path.join(vrun.VERIF, 'contracts', 'vnative.h'), tu]
-        for l in unit['link']:
-            cmd.append(os.path.join(vrun.REPO, 'htp', l))
-        cmd += ['-o', exe, '-lz']
+        import glob
+        base = ['gcc', '-g', '-O0', '-fsanitize=address,undefined', '-fno-sanitize-recover=undefined', '-D_GNU_SOURCE', '-std=gnu99', '-w',
+                '-I' + vrun.REPO, '-I' + vrun.REPO + '/htp', '-I' + vrun.REPO + '/htp/lzma', '-I' + vrun.VERIF + '/contracts', '-I' + vrun.VERIF + '/spec']
+        # the rest of the library, from the current tree, so that every symbol resolves (sources that the TU #includes are left out)
+        others = [f for f in sorted(glob.glob(os.path.join(vrun.REPO, 'htp', '*.c')) + glob.glob(os.path.join(vrun.REPO, 'htp', 'lzma', '*.c')))
+                  if os.path.basename(f) not in unit['src']]
+        cmd = base + ['-DHARNESS=hbody', '-DVENTRY=' + entry, '-include', init_h, '-include', os.path.join(vrun.VERIF, 'contracts', 'vnative.h'),
+                      '-c', tu, '-o', os.path.join(work, 'tu.o')]
+        p = subprocess.run(cmd, cwd=work, stdout=subprocess.PIPE, stderr=subprocess.STDOUT, timeout=300)
+        if p.returncode != 0:
+            return dict(confirmed=False, built=False, output=p.stdout.decode('utf-8', 'replace')[-3000:])
+        cmd = base + [os.path.join(work, 'tu.o')] + others + ['-o', exe, '-lz']
         p = subprocess.run(cmd, cwd=work, stdout=subprocess.PIPE, stderr=subprocess.STDOUT, timeout=300)
         if p.returncode != 0:
             return dict(confirmed=False, built=False, output=p.stdout.decode('utf-8', 'replace')[-3000:])
